@@ -1,6 +1,8 @@
 """C12 — conjugate gradient produces the Krylov-optimal iterate at every step.
 
-tie:    the REAL `sigpy.alg.ConjugateGradient` is executed over exact Gaussian rationals
+tie:    translator (harness/translate/gen_c12.py): the machine the theorems are about IS the
+        statement-by-statement translation of `ConjugateGradient.__init__/_update/_done` regenerated from
+        sigpy/alg.py on every run (Gen/C12.lean); and the REAL `sigpy.alg.ConjugateGradient` is executed over exact Gaussian rationals
         (dtype=object arrays of harness.exactq.QI) and every attribute is compared, after
         `__init__` and after EVERY `update()`, with the Lean machine `C12.run` (same definition the
         theorems are about) as equal fractions; a float64/complex128 run of the same instances is
@@ -29,7 +31,15 @@ THEOREMS = ["SigpyVerif.C12." + t for t in [
     "cg_residual", "cg_real_inner", "cg_orth_local", "cg_conj_local", "cg_orth", "cg_conj",
     "cg_krylov", "cg_krylov_eq", "cg_optimal", "cg_optimal_last", "cg_monotone", "cg_finite",
     "cg_breakdown_converged", "cg_early_stop_fixed", "run_none", "hpd_id", "pAp_budget", "npd_sticky",
+    "model_is_generated", "update_eq", "update_keeps_iter", "x_is_callers_array",
 ]]
+
+
+def translate(ctx):
+    """Gen/C12.lean: `ConjugateGradient.__init__/_update/_done` (+ `Alg.__init__`, `Alg.update`) translated
+    statement by statement (harness/translate/gen_c12.py); Model/C12.lean's machine IS these definitions."""
+    from harness.translate import gen as G
+    G.regenerate(ctx, ["C12"])
 
 
 # ---- instances -------------------------------------------------------------------------------
@@ -372,7 +382,14 @@ def correspond(ctx):
                "%d of %d instances differ from the Lean machine over exact Gaussian rationals" % (bad_e, n_inst))
     ctx.oblige("correspondence:C12.float", "correspondence", bad_f == 0,
                "%d of %d float instances: some update differs from the exact machine's successor of the same (dyadic) state by more than 1e-9" % (bad_f, n_inst))
+    ctx.trusted += [
+        "translator harness/translate/gen_c12.py (python ast -> Lean): its reading of util.axpy / util.xpay / xp.real(xp.vdot) / "
+        ".copy() / .item() / `** 0.5` as the operations of C12.Ops and of numpy arrays as objects updated in place; validated by "
+        "this correspondence on every run, not proved",
+    ]
     ctx.assumptions += [
+        "the driver's division-by-zero pre-check (Model/C12.lean divByZero) and its 40000-bit stop are hand-written; both are "
+        "compared with the real run (ZeroDivisionError / the harness's own stop)",
         "numpy object-array arithmetic dispatches to the exact scalar class (harness/exactq.py) with the same "
         "operation order as for float dtypes",
         "Lean `Rat` arithmetic of the compiled driver is the arithmetic the theorems are about (Mathlib's ℝ/ℂ "
@@ -579,13 +596,18 @@ def check_oracle(ctx, inst, mode, origin):
 
 def search(ctx, budget):
     rng = ctx.rng
+    enough = 40  # failing inputs after which the search stops (one suffices; a broken recurrence makes each exact run slow)
     for d in ctx.disagreements[:100]:
+        if len(ctx.failures) >= enough:
+            break
         c = d["case"]
         if c["inst"]["akind"] != "psd":
             check_oracle(ctx, c["inst"], c["mode"], "disagreement")
             check_oracle(ctx, c["inst"], "float" if c["mode"] == "exact" else "exact", "disagreement")
     n_inst = int(120 * budget)
     for i in range(n_inst):
+        if len(ctx.failures) >= enough:
+            break
         inst = gen_instance(rng, nmax=8 if i % 4 else 12, akinds=("pd", "pd", "pd", "pd", "pd", "indef"))
         if inst["max_iter"] == 0:
             inst["max_iter"] = inst["n"]
